@@ -288,3 +288,10 @@ func verifC12Monitor(x *xplore.Exec) {
 		}
 	}
 }
+
+// TestVerifRace_C12 runs every scenario body free (gates answer at once, no oracle) under the race detector.
+func TestVerifRace_C12(t *testing.T) {
+	xplore.Free = 2
+	defer func() { xplore.Free = 0 }()
+	TestVerif_C12(t)
+}
